@@ -40,4 +40,7 @@ def alpha_cases(ctx, alpha, exh_len, n_random, lo, hi, tols=(0, 1), tag='alpha')
     strs += list(gen.random_strings(ctx.rng(tag + '/env'), ENV_ALPHA, n_random // 2, 4, 9))
     strs += gen.padded_env_docs()
     strs += gen.long_arg_runs()
-    return [(s, t, ()) for s in strs for t in tols]
+    strs += gen.unicode_strings(ctx.rng(tag + '/uni'), ctx.pick(3000, 30000))
+    cases = [(s, t, ()) for s in strs for t in tols]
+    cases += [(s, t, sk) for s, sk in gen.name_neighbour_docs() for t in tols]
+    return cases
